@@ -280,10 +280,16 @@ class build_atomlist:
 
         # Make space group name
         sgtmp = sg.split()
-        sg = ''
-        for i in range(len(sgtmp)):
-            if sgtmp[i] != '1':
-                sg = sg + sgtmp[i].lower()
+        # '1' is a place holder in the full monoclinic symbols (P 1 21/c 1), but it is
+        # part of the symbol in P 1 and in the trigonal groups (P 3 1 2, P 3 2 1, ...):
+        # it is only dropped when the complete symbol is not a known space group
+        from xfab.sg import sgdic
+        sg = ''.join(sgtmp).lower()
+        if sg not in sgdic:
+            sg = ''
+            for i in range(len(sgtmp)):
+                if sgtmp[i] != '1':
+                    sg = sg + sgtmp[i].lower()
         self.atomlist.sgname = sg
 
         # Build SCALE matrix for transformation of 
